@@ -124,7 +124,7 @@ def op_missing_scale(rnd):
 
 
 def op_scale_without_ref(rnd, variant=None):
-    d = base(rnd, rnd.choice(["noref", "single"]))
+    d = base(rnd, rnd.choice(["noref", "single"]) if variant is None else ["noref", "single"][(variant // 4) % 2])
     i = rnd.randrange(len(d["units"]))
     u = d["units"][i]
     a = [u["id"], defgen.rust_str(u["symbol"]), pick(rnd, ["1000", "0.001", "2.5e3", "1."], variant)]
@@ -132,7 +132,7 @@ def op_scale_without_ref(rnd, variant=None):
 
 
 def op_prefix_without_ref(rnd, variant=None):
-    d = base(rnd, rnd.choice(["noref", "single"]))
+    d = base(rnd, rnd.choice(["noref", "single"]) if variant is None else ["noref", "single"][(variant // 3) % 2])
     i = rnd.randrange(len(d["units"]))
     u = d["units"][i]
     a = [u["id"], defgen.rust_str(u["symbol"]), pick(rnd, ["NONE", rnd.choice(defgen.PREFIXES)[0], "KILO"], variant)]
@@ -269,7 +269,7 @@ OPERATORS = [op_no_unit, op_second_ref_unit, op_ref_unit_with_scale, op_missing_
 
 # number of enumerable sub-variants per operator (every one occurs once per batch)
 VARIANTS = {"op_no_unit": 3, "op_second_ref_unit": 5, "op_ref_unit_with_scale": 4, "op_missing_scale": 1,
-            "op_scale_without_ref": 4, "op_prefix_without_ref": 3, "op_args": 21, "op_ref_args": 9, "op_fields": 4,
+            "op_scale_without_ref": 8, "op_prefix_without_ref": 6, "op_args": 21, "op_ref_args": 9, "op_fields": 4,
             "op_generics": 5, "op_not_struct": 7, "op_bad_derivation": 46, "op_derived_no_ref": 6}
 
 
